@@ -228,6 +228,23 @@ namespace plan
             return 2;
           if (st.k == Stmt::ASSERT)
             slv.add(zb(st.b));
+          if (st.k == Stmt::DISJ)
+          { // { c; ... } or { c; ... }: one branch holds; a branch that also states a fact is outside this fragment
+            z3::expr_vector brs(ctx);
+            for (auto &br : st.item->branches)
+            {
+              z3::expr_vector cs(ctx);
+              for (auto &it : br)
+              {
+                if (it->k != BodyItem::ASSERT)
+                  return 2;
+                cs.push_back(zb(it->b));
+              }
+              brs.push_back(cs.empty() ? ctx.bool_val(true) : z3::mk_and(cs));
+            }
+            if (!brs.empty())
+              slv.add(z3::mk_or(brs));
+          }
         }
         for (auto &v : m.ovars)
         {
